@@ -159,3 +159,19 @@ def deref(schema, root=None, depth=0):
     if isinstance(schema, list):
         return [deref(sub, root, depth + 1) for sub in schema]
     return schema
+
+
+
+def scribble_json(doc, depth=0):
+    """Edit a document the library returned, everywhere, in place - as a caller deriving a variant of it would.
+    What the library handed out is the caller's; its own elements must not change with it."""
+    if depth > 12:
+        return
+    if isinstance(doc, dict):
+        for member in list(doc.values()):
+            scribble_json(member, depth + 1)
+        doc["scribbled-by-caller"] = [1]
+    elif isinstance(doc, list):
+        for member in doc:
+            scribble_json(member, depth + 1)
+        doc.append("scribbled-by-caller")
